@@ -12,7 +12,7 @@ use rosu_verif::{
     engine::{guarded, install_panic_hook, seeded_tapes},
     gen::{
         diff::{gen_diff, DiffProfile},
-        map::{gen_map, MapProfile, ObjKind, ALL_MODES},
+        map::{gen_map, MapProfile, ObjKind, ALL_MODES, MANIA_ONLY},
         score::gen_score_spec,
     },
     props::{
@@ -37,10 +37,10 @@ struct Case {
 fn gen_case(tape: &[u32]) -> Case {
     let mut t = Tape::new(tape.to_vec());
     // families are drawn first, while the tape still has entropy (an exhausted tape reads as zeros)
-    let family = t.weighted(&[115, 2, 3]);
-    let mut spec = gen_map(&mut t, &MapProfile::small(ALL_MODES, if family == 1 { 30 } else { 60 }));
+    let family = t.weighted(&[230, 4, 6, 1]);
+    let mut spec = gen_map(&mut t, &MapProfile::small(if family == 3 { MANIA_ONLY } else { ALL_MODES }, if family == 1 { 30 } else if family == 3 { 8 } else { 60 }));
     // long-gap family: breaks of 10 s .. 20 h inside the suspicion limit => runs of zero sections
-    let long_gap = t.chance(1, 3) && spec.objects.len() >= 2;
+    let long_gap = t.chance(1, 3) && family != 3 && spec.objects.len() >= 2;
     if long_gap {
         let at = 1 + t.below_usize(spec.objects.len() - 1);
         let gap = match t.weighted(&[3, 3, 2, 1]) {
@@ -97,11 +97,19 @@ fn gen_case(tape: &[u32]) -> Case {
             }
         }
     }
+    // giga-gap family (mania only: one skill): the last object sits at 1.9e9 ms and the clock rate is 0.25, i.e.
+    // 19 million strain sections - more than 2^24 entries in one list
+    let giga = family == 3 && spec.objects.len() >= 2;
+    if giga {
+        let at = spec.objects.len() - 1;
+        let gap = 1.9e9 - spec.objects[at].time;
+        shift_from(&mut spec, at, gap);
+    }
     let target = if margin { GameMode::Taiko } else { pick_target(&mut t, spec.mode) };
     let mut dspec = gen_diff(&mut t, &DiffProfile::realistic().passed(spec.objects.len() as u32), target);
     // ultra-gap class: a gap of 72-130 minutes at clock rate 0.01, i.e. 5-9 days of clock-adjusted
     // emptiness = more than 2^20 consecutive zero sections (about 10 MB per skill in the raw layout)
-    let ultra = t.chance(1, 100) && !long && spec.objects.len() >= 2;
+    let ultra = t.chance(1, 100) && !long && !giga && spec.objects.len() >= 2;
     if ultra {
         let at = 1 + t.below_usize(spec.objects.len() - 1);
         let gap = t.range(4_300_000, 7_800_000) as f64;
@@ -110,6 +118,10 @@ fn gen_case(tape: &[u32]) -> Case {
     }
     if let Some(r) = margin_rate {
         dspec.clock_rate = Some(r);
+    }
+    if giga {
+        dspec.clock_rate = Some(0.25);
+        dspec.passed = None;
     }
     let mut score = gen_score_spec(&mut t, spec.objects.len() as u32);
     if long && target == GameMode::Mania && score.accuracy.is_some() && score.n300.is_none() {
@@ -129,6 +141,9 @@ fn gen_case(tape: &[u32]) -> Case {
     }
     if margin {
         labels.push("taiko-interval-margin-family".into());
+    }
+    if giga {
+        labels.push("giga-gap(>2^24 sections)".into());
     }
     Case { text: spec.render(), target, dspec, score, labels }
 }
